@@ -236,6 +236,27 @@ def run(ctx):
         res.site(key, True, {"inexact_operations": bad, "verdict": "ok" if not bad else "VIOLATION"})
         if bad:
             res.find(key, f.loc(), "%s is not an exact identity on floats (%s): Expression numbers equal under it are merged by interning, so a literal can be replaced by a different one" % (f.path.replace("quil_rs::", ""), sorted(set(bad))), "`RX(2*1e-17) 0` then `RX(2*1e-30) 1`: the second gate's parameter comes back as 2*1e-17")
+    # radix prefixes: 0b.. is base 2, 0o.. base 8, 0x.. base 16, no prefix base 10 (read from the instantiations of the
+    # lexer's radix macro, whatever the generated functions are called)
+    key = "K8|radix-prefix-table"
+    try:
+        syn_ = ctx.syn()
+        inst = [m_ for m_ in syn_.item_macros if m_.get("module", "").startswith("quil_rs::parser::lexer") and len(m_.get("args", [])) in (2, 3) and m_["args"][1].get("k") == "lit" and m_["args"][1].get("t") == "int" and (len(m_["args"]) == 2 or m_["args"][2].get("t") == "byte")]
+        table = {}
+        for m_ in inst:
+            pre = chr(m_["args"][2]["v"]) if len(m_["args"]) == 3 else None
+            table.setdefault(pre, set()).add(int(m_["args"][1]["v"]))
+        want = {"b": {2}, "o": {8}, "x": {16}, None: {10}}
+        if not inst:
+            res.site(key, False, {"verdict": "undecided: no radix macro instantiations found in the lexer"})
+            res.undecided.append(key)
+        else:
+            ok = table == want
+            res.site(key, True, {"table": {str(k_): sorted(v_) for k_, v_ in table.items()}, "verdict": "ok" if ok else "VIOLATION"})
+            if not ok:
+                res.find(key, "%s:%d" % (inst[0]["file"], inst[0]["ln"]), "the lexer's radix table is %s; expected 0b -> 2, 0o -> 8, 0x -> 16, no prefix -> 10" % {str(k_): sorted(v_) for k_, v_ in table.items()}, "`MOVE x 0o17` stores 23 instead of 15")
+    except RuntimeError:
+        res.undecided.append(key + " (no syn facts)")
     # after the digits of an integer, the bytes that make the literal a real one must include the decimal point and BOTH
     # spellings of the exponent marker (the float parser accepts `e` and `E`); otherwise `2E3` is lexed as the integer 2
     # followed by an identifier and a program is accepted with a different value
